@@ -680,7 +680,7 @@ def case_byaxis(rng, desc, exact):
         wire = 's_{}_{}_{}'.format(*('N' if v is None else v for v in (a, b, s)))
         cls = 'slice' if s in (None, 1) else ('negstep' if s < 0 else 'step')
     else:
-        obj = [rng.randint(-nd, nd - 1) for _ in range(rng.choice([0, 1, 2, 3]))]
+        obj = [rng.randint(-nd, nd - 1) for _ in range(rng.choice([0, 1, 2, 3, 4, 5]))]
         wire, cls = 'L:' + (','.join(str(i) for i in obj) if obj else '-'), 'list'
     rp = {'op': 'byaxis', 'part': desc_json(desc), 'sel': wire, 'exact': exact}
     return run_byaxis(desc, obj, wire, cls, exact, rp)
@@ -751,6 +751,12 @@ def gen_uniform_params(rng, exact):
         else:
             h = F(rng.randint(1, 30), 10)
             lo = F(rng.randint(-30, 30), 10)
+            if n == 1 and br and not bl:
+                # the single node is computed as xmin + (xmax - xmin): with rounding it can land
+                # one ulp outside the set and the containment test (a branch point) flips.
+                # Branch points are generated exactly, never nearly: dyadic values here.
+                h = F(rng.choice([1, 2, 3, 4, 6, 8, 12]), 8)
+                lo = dy(rng)
         hc = F(int(bl) + int(br), 2)
         hi = lo + h * (n - hc)
         axes.append(dict(n=n, bl=bl, br=br, h=h, lo=lo, hi=hi))
@@ -1114,7 +1120,7 @@ def gen_cases(ctx, budget):
         elif op == 'getitem':
             yield case_getitem(rng, gen_desc(rng, True), True)
         elif op in ('insert', 'append'):
-            others = [gen_desc(rng, True, ndim=rng.choice([1, 1, 2])) for _ in range(rng.choice([0, 1, 1, 2]))]
+            others = [gen_desc(rng, True, ndim=rng.choice([1, 1, 2])) for _ in range(rng.choice([0, 1, 1, 2, 3]))]
             yield case_insert(rng, gen_desc(rng, True), others, True, op == 'append')
         elif op == 'squeeze':
             yield case_squeeze(rng, gen_desc(rng, True), True)
@@ -1133,6 +1139,9 @@ def gen_cases(ctx, budget):
 def account(ctx, case):
     ctx.case(case.sig, sample={'line': case.line[:200]} if case.sig is not None else None)
     ctx.hit(case.op + ('/exact' if case.exact else '/general') + ('/err' if case.impl is None else '/ok'))
+    if case.sig is not None:
+        # operation-specific class (index-expression kind, point position, given parameters, ...)
+        ctx.hit('{}:{}'.format(case.op, case.sig[-1])[:80])
     if case.impl is None:
         ctx.err(case.op)
     for key, msg in case.problems:
@@ -1140,7 +1149,7 @@ def account(ctx, case):
 
 
 def run(ctx):
-    budget = 2500 if ctx.quick else 30000
+    budget = 12000 if ctx.quick else 150000
     cases = list(gen_cases(ctx, budget))
     outs = core.run_driver('C14', [c.line for c in cases])
     for c, ans in zip(cases, outs):
